@@ -191,7 +191,9 @@ def explore(ctx, res, pid):
                 'SubscribeError, FailureError, RuntimeError, KeyError), listener calls nested in subscribe()/unsubscribe() and from 0..3 adapter threads, '
                 'pool sizes 1,2,3,8; schedules: corpus, bounded-exhaustive DFS of small single-item scenarios, PCT and uniform random; each run is replayed '
                 'step by step through Model/Item.v (labels accepted, lines per step, invariants and monitors of ItemSpec.v along the trace, final per-item state) '
-                'and judged by the oracle of the property; non-trivial = distinct (scenario, schedule) with at least two scheduling decisions')
+                'and judged by the oracle of the property; every access to the shared fields of subscription.py is checked against the lock the model attributes it to '
+                '(lockset tracing); one random run in forty uses line-granular preemption (every source line of the library a yield point) and is judged by the oracle only; '
+                'non-trivial = distinct (scenario, schedule) with at least two scheduling decisions')
     bound = 2 if tier == 'quick' else 3
     cap = 600 if tier == "quick" else 40000
     nrand = 1600 if tier == "quick" else 40000
